@@ -15,6 +15,176 @@ theorem klatt_roundtrip_clean (xmin xmax : Txt) (secs : List WSec) (hw : File.Wr
   rw [fileText_layout xmin xmax secs hw, openNormal_layout xmin xmax _ hr]
   simp [cleanWSec, List.map_map, Function.comp_def]
 
+/-- save, then open, with the hypotheses split by consumer: `File.WriterOk` (what the writer/cleaner proof uses),
+`Read.ReadOk` (what the reader proof uses) and `Read.PtsOk` (the point numerals inside containers).  All three
+follow from `KlattOk` below, where every numeral condition is just "a string `float()` accepts and `strip()`
+leaves alone". -/
+theorem klatt_roundtrip_parts (xmin xmax : Txt) (secs : List WSec) (hw : File.WriterOk xmin xmax secs)
+    (hr : Read.ReadOk xmin xmax secs) (hp : Read.PtsOk secs) :
+    openNormal (fileText xmin xmax secs) = .ok (secs.map fun w => cleanSec w.sec) :=
+  klatt_roundtrip_clean xmin xmax secs hw (Read.readOk_clean xmin xmax secs hr hp)
+
+/-! ## the hypotheses in plain terms: `KlattOk` -/
+
+/-- the numeral conditions of the reader / writer / cleaner proofs all follow from `Lit` -/
+theorem fnumeral_of_lit {n : Txt} (h : Lit n) : Read.FNumeral n := Read.FNumeral.of_lit h
+
+theorem pointOk_of_lit {n : Txt} (h : Lit n) : File.PointOk n :=
+  File.PointOk.of_numeral (fnumeral_of_lit h).1.1 (h.not_mem '=' (by decide)) (h.not_mem 'm' (by decide))
+
+theorem spanOk_of_lit {n : Txt} (h : Lit n) : File.SpanOk n := File.SpanOk.of_numeral (fnumeral_of_lit h).1.1
+
+/-- a sub tier of the intermediate tier `iname`: named `iname [k]`, all numerals are numerals -/
+structure SubOk (iname : Txt) (p : PT) : Prop where
+  name : ∃ k, p.name = iname ++ t " [" ++ natDec k ++ t "]"
+  xmin : Lit p.xmin
+  xmax : Lit p.xmax
+  pts : ∀ q ∈ p.pts, Lit q.1 ∧ Lit q.2
+
+/-- a top-level tier -/
+structure TopTierOk (p : PT) : Prop where
+  /-- the name is one stripped line without `?`, `<`, `=` (every tier name of a KlattGrid is an identifier) … -/
+  name_nl : '\n' ∉ p.name
+  name_q : '?' ∉ p.name
+  name_lt : '<' ∉ p.name
+  name_eq : '=' ∉ p.name
+  name_strip : stripList p.name = p.name
+  /-- … and not one of the seven container names (the reader dispatches on the name) -/
+  notCont : containerNames.contains p.name = false
+  xmin : Lit p.xmin
+  xmax : Lit p.xmax
+  pts : ∀ q ∈ p.pts, Lit q.1 ∧ Lit q.2
+  /-- `phonation`, `vocalTract`, `coupling`, `frication` are written without a `points: size` row: they carry no
+  points (with points the file cannot be read back: `header_tier_with_points_rejected`) -/
+  headerOnly : noPointsHeader.contains p.name = true → p.pts = []
+
+/-- a container section -/
+structure ContainerOk (name : Txt) (span : Option (Txt × Txt)) (its : List IT) : Prop where
+  name : name ∈ containerNames
+  /-- the container's own span: present exactly when it has a sub tier (below: it has) -/
+  span : ∃ a b, span = some (a, b) ∧ Lit a ∧ Lit b
+  /-- the intermediate tiers are distinct tiers named as in Praat, in Praat's order `formants`, `bandwidths`,
+  `…_amplitudes` — the order of every object the reader returns, whatever the order in the file
+  (`container_roundtrip_anyorder` in general, `container_order_normalised` on a whole file) -/
+  order : (its.map (·.name)).Sublist canon
+  subs : ∀ i ∈ its, ∀ p ∈ i.subs, SubOk i.name p
+  /-- every intermediate tier has a sub tier — **not** a harmless hypothesis: Praat writes `formants: size = 0`
+  for a branch without formants, and the reader fails on it (`klatt_zero_formants_counterexample`) -/
+  nonempty : ∀ i ∈ its, i.subs ≠ []
+  /-- sub tier names are distinct (`addTier` raises TierNameExistsError otherwise: `duplicate_subtier_rejected`) -/
+  distinct : ∀ i ∈ its, hasDup (i.subs.map (·.name)) = false
+  /-- there is an intermediate tier (Praat always writes the `formants: size = n` and `bandwidths: size = n`
+  rows; a container section of three header rows only is not a KlattGrid section — the reader builds a
+  container without a span from it, and `addTier` raises TypeError unless it is the first section) -/
+  ne : its ≠ []
+
+def SecOk (w : WSec) : Prop :=
+  match w.sec with
+  | .tier p => TopTierOk p
+  | .cont n its => ContainerOk n w.span its
+
+/-- **all hypotheses of `klatt_roundtrip`, about the tree that is saved** -/
+structure KlattOk (xmin xmax : Txt) (secs : List WSec) : Prop where
+  xmin : Lit xmin
+  xmax : Lit xmax
+  ok : ∀ w ∈ secs, SecOk w
+  /-- section names are distinct (`Klattgrid.addTier` raises TierNameExistsError otherwise: `duplicate_section_rejected`) -/
+  names : (secs.map (·.sec.name)).Nodup
+  /-- the reader looks for the word "points" before anything else ("Not sure if this is needed") and raises
+  ValueError when there is none: some section is a container or a tier with a `points: size` row
+  (`no_points_row_rejected`) -/
+  points : ∃ w ∈ secs, match w.sec with
+    | .tier p => noPointsHeader.contains p.name = false
+    | .cont _ _ => True
+
+theorem subName_nameOk (nm : Txt) (hnm : nm ∈ canon) (k : Nat) : File.NameOk (nm ++ t " [" ++ natDec k ++ t "]") := by
+  obtain ⟨h1, h2⟩ := File.canon_nameOk nm hnm
+  have a1 : '=' ∉ t " [" := by decide
+  have a2 : '=' ∉ t "]" := by decide
+  have b1 : '\n' ∉ t " [" := by decide
+  have b2 : '\n' ∉ t "]" := by decide
+  exact ⟨by simp [h1, a1, a2, eq_not_mem_natDec], by simp [h2, b1, b2, nl_not_mem_natDec]⟩
+
+theorem SubOk.ptOk {nm : Txt} {p : PT} (hnm : nm ∈ canon) (h : SubOk nm p) : File.PTOk p := by
+  obtain ⟨k, hk⟩ := h.name
+  refine ⟨by rw [hk]; exact subName_nameOk nm hnm k, spanOk_of_lit h.xmin, spanOk_of_lit h.xmax, ?_⟩
+  intro q hq
+  exact ⟨pointOk_of_lit (h.pts q hq).1, pointOk_of_lit (h.pts q hq).2⟩
+
+theorem SubOk.shape {nm : Txt} {p : PT} (h : SubOk nm p) : PTShape nm p :=
+  ⟨h.name, (fnumeral_of_lit h.xmin).1, (fnumeral_of_lit h.xmax).1,
+    fun q hq => ⟨(fnumeral_of_lit (h.pts q hq).1).1, (fnumeral_of_lit (h.pts q hq).2).1⟩⟩
+
+theorem containerNames_nameOk : ∀ nm ∈ containerNames, File.NameOk nm := by
+  have : ∀ nm ∈ containerNames, '=' ∉ nm ∧ '\n' ∉ nm := by decide
+  exact this
+
+theorem KlattOk.writerOk {xmin xmax : Txt} {secs : List WSec} (h : KlattOk xmin xmax secs) : File.WriterOk xmin xmax secs := by
+  refine ⟨spanOk_of_lit h.xmin, spanOk_of_lit h.xmax, ?_⟩
+  intro w hw
+  have hs := h.ok w hw
+  obtain ⟨sec, span⟩ := w
+  cases sec with
+  | tier p =>
+    have hs : TopTierOk p := hs
+    refine ⟨⟨hs.name_eq, hs.name_nl⟩, spanOk_of_lit hs.xmin, spanOk_of_lit hs.xmax, ?_⟩
+    intro q hq
+    exact ⟨pointOk_of_lit (hs.pts q hq).1, pointOk_of_lit (hs.pts q hq).2⟩
+  | cont n its =>
+    have hs : ContainerOk n span its := hs
+    refine ⟨containerNames_nameOk n hs.name, ?_, ?_⟩
+    · intro ab hab
+      obtain ⟨a, b, hsp, ha, hb⟩ := hs.span
+      have hsp : span = some (a, b) := hsp
+      subst hsp
+      simp only [Option.mem_def, Option.some.injEq] at hab
+      subst hab
+      exact ⟨spanOk_of_lit ha, spanOk_of_lit hb⟩
+    · intro i hi
+      have hc : i.name ∈ canon := hs.order.subset (List.mem_map.2 ⟨i, hi, rfl⟩)
+      exact File.ITOk.of_canon hc (fun p hp => (hs.subs i hi p hp).ptOk hc)
+
+theorem ContainerOk.shape2 {n : Txt} {span : Option (Txt × Txt)} {its : List IT} (hs : ContainerOk n span its) : Shape2 its :=
+  { nodup := hs.order.nodup canon_nodup
+    canonical := fun i hi => hs.order.subset (List.mem_map.2 ⟨i, hi, rfl⟩)
+    subs := fun i hi p hp => (hs.subs i hi p hp).shape
+    spans := fun i hi p hp => ⟨(hs.subs i hi p hp).xmin.not_mem '=' (by decide), (hs.subs i hi p hp).xmax.not_mem '=' (by decide)⟩
+    nonempty := hs.nonempty
+    distinct := hs.distinct }
+
+theorem KlattOk.readOk {xmin xmax : Txt} {secs : List WSec} (h : KlattOk xmin xmax secs) : Read.ReadOk xmin xmax secs := by
+  refine ⟨⟨h.xmin.not_mem '\n' (by decide), h.xmin.not_mem '<' (by decide)⟩,
+    ⟨h.xmax.not_mem '\n' (by decide), h.xmax.not_mem '<' (by decide)⟩, ?_, h.names, h.points⟩
+  intro w hw
+  have hs := h.ok w hw
+  obtain ⟨sec, span⟩ := w
+  cases sec with
+  | tier p =>
+    have hs : TopTierOk p := hs
+    exact ⟨hs.name_nl, hs.name_q, hs.name_lt, hs.name_strip, hs.notCont, fnumeral_of_lit hs.xmin, fnumeral_of_lit hs.xmax,
+      fun q hq => ⟨fnumeral_of_lit (hs.pts q hq).1, fnumeral_of_lit (hs.pts q hq).2⟩, hs.headerOnly⟩
+  | cont n its =>
+    have hs : ContainerOk n span its := hs
+    obtain ⟨a, b, hsp, ha, hb⟩ := hs.span
+    refine ⟨hs.name, ⟨a, b, hsp, fnumeral_of_lit ha, fnumeral_of_lit hb⟩, hs.shape2, hs.order, hs.ne, ?_⟩
+    intro i hi p hp
+    have := hs.subs i hi p hp
+    exact ⟨this.xmin.not_mem '<' (by decide), this.xmax.not_mem '<' (by decide),
+      fun q hq => ⟨(this.pts q hq).1.not_mem '<' (by decide), (this.pts q hq).2.not_mem '<' (by decide)⟩⟩
+
+theorem KlattOk.ptsOk {xmin xmax : Txt} {secs : List WSec} (h : KlattOk xmin xmax secs) : Read.PtsOk secs := by
+  intro w hw
+  have hs := h.ok w hw
+  obtain ⟨sec, span⟩ := w
+  cases sec with
+  | tier p => trivial
+  | cont n its =>
+    have hs : ContainerOk n span its := hs
+    intro i hi p hp q hq
+    have := (hs.subs i hi p hp).pts q hq
+    exact ⟨fnumeral_of_lit this.1, fnumeral_of_lit this.2⟩
+
+
 /-- **(e) `klatt_roundtrip`** — save, then open: `_openNormalKlattgrid (Klattgrid.save tree)` returns the
 tree's sections in order — names, hierarchy (container → intermediate → sub tiers), spans, every point's
 number and value — where each point numeral `n` comes back as `cz n`: the same string, except that a
@@ -22,17 +192,19 @@ zero-valued literal which `int()` rejects comes back as `0` (`0.0`, `0e0`, `.0`)
 minus sign, as `-0` (`-0.0`, `-0e0`) — `_cleanNumericValues`; both read back as the same float including
 the sign of zero (`cz_zero_forms`; before /repo commit bd8eb8f `-0.0` came back as `0`).
 
-Hypotheses, all about the tree that is saved: `File.WriterOk` (what the writer/cleaner proof needs: names
-without `=`/newline, non-empty stripped one-line span numerals, point numerals without `=`, "min", "max"),
-`Read.ReadOk` (what the reader proof needs: tiers with `?`-, `<`-free stripped names that are not container
-names, containers named as in Praat with a span and canonical intermediate tiers `formants`, `bandwidths`,
-`…_amplitudes` in that order, each with at least one sub tier `name [k]`, distinct section names, at least
-one section with a `points` row, numerals that are float literals without `=`, `<`, `s`, `w`) and
-`Read.PtsOk` (the same for the point numerals inside containers). -/
-theorem klatt_roundtrip (xmin xmax : Txt) (secs : List WSec) (hw : File.WriterOk xmin xmax secs)
-    (hr : Read.ReadOk xmin xmax secs) (hp : Read.PtsOk secs) :
+One hypothesis, `KlattOk`, about the tree that is saved.  **Numerals** (spans, times, values) are arbitrary
+strings `float()` accepts and `strip()` leaves alone (`Lit`: integers, negative numbers, exponent forms such as
+`1e-05`, `-0`, 17 significant digits, `inf`, `nan` — no condition on their characters: `fclass_chars`).
+**Names**: top-level tiers have one-line stripped names without `?`, `<`, `=` that are not container names;
+containers and intermediate tiers are named as in Praat, sub tiers `name [k]`; section names and sub tier
+names are distinct (enforced by `addTier`).  **Structure**: intermediate tiers in Praat's order (the reader
+returns that order whatever the file's: `container_roundtrip_anyorder`, `container_order_normalised`), each with at least one sub tier
+(violated by a conformant KlattGrid with a branch of zero formants, on which the real reader fails:
+`klatt_zero_formants_counterexample`, `klatt_roundtrip_empty_formants_counterexample`); header-only tiers
+without points (`header_tier_with_points_rejected`); some `points` row in the file (`no_points_row_rejected`). -/
+theorem klatt_roundtrip (xmin xmax : Txt) (secs : List WSec) (h : KlattOk xmin xmax secs) :
     openNormal (fileText xmin xmax secs) = .ok (secs.map fun w => cleanSec w.sec) :=
-  klatt_roundtrip_clean xmin xmax secs hw (Read.readOk_clean xmin xmax secs hr hp)
+  klatt_roundtrip_parts xmin xmax secs h.writerOk h.readOk h.ptsOk
 
 /-- what `cz` does to the zero forms: the sign of a negative zero is kept (former known finding C19-negzero) -/
 theorem cz_zero_forms : cz (t "-0.0") = t "-0" ∧ cz (t "0.0") = t "0" ∧ cz (t "0") = t "0" ∧ cz (t "-0") = t "-0" ∧
@@ -104,7 +276,7 @@ theorem exFile_readOk : Read.ReadOk (t "0") (t "1") (exFile.map cleanWSec) := by
       rcases hq with rfl | rfl
       · exact ⟨f05, Read.fnumeral_negzero⟩
       · exact ⟨f075, f55⟩
-    · refine ⟨by decide, ⟨t "0", t "1", rfl, f0, f1⟩, exIts_shape2, by decide, ?_⟩
+    · refine ⟨by decide, ⟨t "0", t "1", rfl, f0, f1⟩, exIts_shape2, by decide, by decide, ?_⟩
       decide
     · exact ⟨by decide, by decide, by decide, by decide, by decide, f0, f1, (by intro q hq; cases hq), (by decide)⟩
   · exact ⟨_, List.mem_cons_of_mem _ (List.mem_cons_self), by decide⟩
@@ -133,7 +305,7 @@ theorem exFile_readOk_raw : Read.ReadOk (t "0") (t "1") exFile := by
       rcases hq with rfl | rfl
       · exact ⟨f05, fz⟩
       · exact ⟨f075, f55⟩
-    · refine ⟨by decide, ⟨t "0", t "1", rfl, f0, f1⟩, exIts_shape2, by decide, ?_⟩
+    · refine ⟨by decide, ⟨t "0", t "1", rfl, f0, f1⟩, exIts_shape2, by decide, by decide, ?_⟩
       decide
     · exact ⟨by decide, by decide, by decide, by decide, by decide, f0, f1, (by intro q hq; cases hq), (by decide)⟩
   · exact ⟨_, List.mem_cons_of_mem _ (List.mem_cons_self), by decide⟩
@@ -156,8 +328,177 @@ theorem exFile_ptsOk : Read.PtsOk exFile := by
       simp only [List.mem_cons, List.not_mem_nil, or_false] at hq; subst hq; exact ⟨f025, f60⟩
   · trivial
 
-/-- `klatt_roundtrip` applies to the example: all hypotheses are about the saved tree and are satisfiable -/
+/-- `klatt_roundtrip_parts` applies to the example: all hypotheses are about the saved tree and are satisfiable -/
 example : openNormal (fileText (t "0") (t "1") exFile) = .ok (exFile.map fun w => cleanSec w.sec) :=
-  klatt_roundtrip _ _ _ exFile_writerOk exFile_readOk_raw exFile_ptsOk
+  klatt_roundtrip_parts _ _ _ exFile_writerOk exFile_readOk_raw exFile_ptsOk
+
+set_option exponentiation.threshold 2000 in
+set_option maxRecDepth 100000 in
+theorem lit_examples : Lit (t "0") ∧ Lit (t "1") ∧ Lit (t "0.5") ∧ Lit (t "0.75") ∧ Lit (t "55") ∧ Lit (t "-0.0") ∧
+    Lit (t "0.25") ∧ Lit (t "60") := by
+  refine ⟨?_, ?_, ?_, ?_, ?_, ?_, ?_, ?_⟩ <;> exact ⟨by decide, by decide⟩
+
+/-- the hypothesis of `klatt_roundtrip` is satisfiable: it holds of the example (which has a `-0.0`) -/
+theorem exFile_klattOk : KlattOk (t "0") (t "1") exFile := by
+  obtain ⟨f0, f1, f05, f075, f55, fz, f025, f60⟩ := lit_examples
+  refine ⟨f0, f1, ?_, by decide, ⟨_, List.mem_cons_of_mem _ (List.mem_cons_self), by decide⟩⟩
+  intro w hw
+  simp only [exFile, List.mem_cons, List.not_mem_nil, or_false] at hw
+  rcases hw with rfl | rfl | rfl | rfl
+  · exact ⟨by decide, by decide, by decide, by decide, by decide, by decide, f0, f1, (by intro q hq; cases hq), (by intro _; rfl)⟩
+  · refine ⟨by decide, by decide, by decide, by decide, by decide, by decide, f0, f1, ?_, by decide⟩
+    intro q hq
+    simp only [List.mem_cons, List.not_mem_nil, or_false] at hq
+    rcases hq with rfl | rfl
+    · exact ⟨f05, fz⟩
+    · exact ⟨f075, f55⟩
+  · refine ⟨by decide, ⟨t "0", t "1", rfl, f0, f1⟩, by decide, ?_, ?_, ?_, by decide⟩
+    · intro i hi p hp
+      simp only [exIts, List.mem_cons, List.not_mem_nil, or_false] at hi
+      rcases hi with rfl | rfl <;> simp only [List.mem_cons, List.not_mem_nil, or_false] at hp
+      · rcases hp with rfl | rfl
+        · refine ⟨⟨1, by decide⟩, f0, f1, ?_⟩
+          intro q hq
+          simp only [List.mem_cons, List.not_mem_nil, or_false] at hq; subst hq; exact ⟨f05, f55⟩
+        · exact ⟨⟨2, by decide⟩, f0, f1, by intro q hq; cases hq⟩
+      · subst hp
+        refine ⟨⟨1, by decide⟩, f0, f1, ?_⟩
+        intro q hq
+        simp only [List.mem_cons, List.not_mem_nil, or_false] at hq; subst hq; exact ⟨f025, f60⟩
+    · intro i hi
+      simp only [exIts, List.mem_cons, List.not_mem_nil, or_false] at hi
+      rcases hi with rfl | rfl <;> simp
+    · intro i hi
+      simp only [exIts, List.mem_cons, List.not_mem_nil, or_false] at hi
+      rcases hi with rfl | rfl <;> decide
+  · exact ⟨by decide, by decide, by decide, by decide, by decide, by decide, f0, f1, (by intro q hq; cases hq), (by decide)⟩
+
+/-- `klatt_roundtrip` applies to the example -/
+example : openNormal (fileText (t "0") (t "1") exFile) = .ok (exFile.map fun w => cleanSec w.sec) :=
+  klatt_roundtrip _ _ _ exFile_klattOk
+
+/-! ## what the hypotheses of `klatt_roundtrip` exclude: replayed on the real code and on the model -/
+
+def errIs (e : PyErr) (r : R (List Sec)) : Bool :=
+  match r with
+  | .error e' => e' == e
+  | .ok _ => false
+
+theorem errIs_eq (e : PyErr) (r : R (List Sec)) (h : errIs e r = true) : r = .error e := by
+  cases r with
+  | error e' => simp only [errIs, beq_iff_eq] at h; rw [h]
+  | ok _ => simp [errIs] at h
+
+def okIs (q : List Sec) (r : R (List Sec)) : Bool :=
+  match r with
+  | .ok q' => decide (q' = q)
+  | .error _ => false
+
+theorem okIs_eq (q : List Sec) (r : R (List Sec)) (h : okIs q r = true) : r = .ok q := by
+  cases r with
+  | error _ => simp [okIs] at h
+  | ok q' => simp only [okIs, decide_eq_true_eq] at h; rw [h]
+
+/-- a KlattGrid in Praat's layout whose nasal branch has no formants: Praat writes `formants: size = 0` and
+`bandwidths: size = 0` (Create KlattGrid… with 0 nasal formants) -/
+def zeroFormantsText : Txt :=
+  t "File type = \"ooTextFile\"\nObject class = \"KlattGrid\"\n\nxmin = 0 \nxmax = 1 \npitch? <exists> \nxmin = 0 \nxmax = 1 \npoints: size = 1 \npoints [1]:\n    number = 0.5 \n    value = 100 \nnasal_formants? <exists> \nxmin = 0 \nxmax = 1 \nformants: size = 0 \nbandwidths: size = 0 \ngain? <exists> \nxmin = 0 \nxmax = 1 \npoints: size = 0 \n"
+
+set_option exponentiation.threshold 2000 in
+set_option maxRecDepth 100000 in
+/-- **the reader fails on a conformant KlattGrid with zero formants in a branch** (genuine defect of
+`_proccessContainerTierInput`, replayed on /repo: `openKlattgrid` raises `UnboundLocalError: cannot access local
+variable 'subName'`): the slice of the `formants: size = 0` row is rejected by `_getSectionHeader` (ValueError,
+`continue`), no sub tier is built, and `subName` — set only inside the loop — is read after it.  Expected: a
+`nasal_formants` container whose `formants` and `bandwidths` tiers have no sub tiers. -/
+theorem klatt_zero_formants_counterexample : openNormal zeroFormantsText = .error .unboundLocal :=
+  errIs_eq _ _ (by decide +kernel)
+
+/-- a tree built through the API: `nasal_formants` with a `formants` tier without sub tiers and one bandwidth -/
+def emptyFormantsTree : List WSec :=
+  [⟨.tier ⟨t "pitch", t "0", t "1.0", [(t "0.5", t "100.0")]⟩, none⟩,
+   ⟨.cont (t "nasal_formants") [⟨t "formants", []⟩,
+      ⟨t "bandwidths", [⟨t "bandwidths [1]", t "0", t "1.0", [(t "0.25", t "60.0")]⟩]⟩], some (t "0", t "1.0")⟩]
+
+-- the file praatio writes for it, byte for byte
+#guard fileText (t "0") (t "1.0") emptyFormantsTree = t "File type = \"ooTextFile\"\nObject class = \"KlattGrid\"\n\nxmin = 0\nxmax = 1.0\npitch? <exists>\nxmin = 0\nxmax = 1.0\npoints: size = 1\npoints [1]:\n    number = 0.5\n    value = 100.0\nnasal_formants? <exists>\nxmin = 0\nxmax = 1.0\nformants: size = 0\nbandwidths: size = 1\nbandwidths [1]:\n    xmin = 0\n    xmax = 1.0\n    points: size = 1\n    points [1]:\n        number = 0.25\n        value = 60.0\n"
+
+set_option exponentiation.threshold 2000 in
+set_option maxRecDepth 100000 in
+/-- **save, then open fails for an intermediate tier without sub tiers**: the file `Klattgrid.save` writes for
+`emptyFormantsTree` cannot be opened (`UnboundLocalError`; with the empty tier in second place the stale
+`subName` of the previous tier is reused and `addTier` raises TierNameExistsError).  This is why
+`ContainerOk.nonempty` is a hypothesis of `klatt_roundtrip`. -/
+theorem klatt_roundtrip_empty_formants_counterexample :
+    openNormal (fileText (t "0") (t "1.0") emptyFormantsTree) = .error .unboundLocal :=
+  errIs_eq _ _ (by decide +kernel)
+
+/-- `bandwidths` written before `formants` -/
+def reorderedTree : List WSec :=
+  [⟨.tier ⟨t "pitch", t "0", t "1.0", [(t "0.5", t "100.0")]⟩, none⟩,
+   ⟨.cont (t "nasal_formants")
+      [⟨t "bandwidths", [⟨t "bandwidths [1]", t "0", t "1.0", [(t "0.25", t "60.0")]⟩]⟩,
+       ⟨t "formants", [⟨t "formants [1]", t "0", t "1.0", [(t "0.5", t "500.0")]⟩]⟩], some (t "0", t "1.0")⟩]
+
+-- the file praatio writes for it, byte for byte
+#guard fileText (t "0") (t "1.0") reorderedTree = t "File type = \"ooTextFile\"\nObject class = \"KlattGrid\"\n\nxmin = 0\nxmax = 1.0\npitch? <exists>\nxmin = 0\nxmax = 1.0\npoints: size = 1\npoints [1]:\n    number = 0.5\n    value = 100.0\nnasal_formants? <exists>\nxmin = 0\nxmax = 1.0\nbandwidths: size = 1\nbandwidths [1]:\n    xmin = 0\n    xmax = 1.0\n    points: size = 1\n    points [1]:\n        number = 0.25\n        value = 60.0\nformants: size = 1\nformants [1]:\n    xmin = 0\n    xmax = 1.0\n    points: size = 1\n    points [1]:\n        number = 0.5\n        value = 500.0\n"
+
+set_option exponentiation.threshold 2000 in
+set_option maxRecDepth 100000 in
+/-- **the reader does not depend on the order of the intermediate tiers in the file, and returns Praat's
+order**: `bandwidths` before `formants` in the file comes back as `formants`, `bandwidths` — every sub tier,
+span and numeral intact (replayed on /repo: same result; a second save/open is then the identity).  Objects the
+reader returns are therefore always in the order `ContainerOk.order` asks for. -/
+theorem container_order_normalised :
+    openNormal (fileText (t "0") (t "1.0") reorderedTree) = .ok
+      [.tier ⟨t "pitch", t "0", t "1.0", [(t "0.5", t "100.0")]⟩,
+       .cont (t "nasal_formants")
+         [⟨t "formants", [⟨t "formants [1]", t "0", t "1.0", [(t "0.5", t "500.0")]⟩]⟩,
+          ⟨t "bandwidths", [⟨t "bandwidths [1]", t "0", t "1.0", [(t "0.25", t "60.0")]⟩]⟩]] :=
+  okIs_eq _ _ (by decide +kernel)
+
+set_option exponentiation.threshold 2000 in
+set_option maxRecDepth 100000 in
+/-- a grid of header-only tiers has no `points` row, and the reader's `data.index("points")` raises ValueError
+(replayed on /repo: `ValueError: substring not found`); no KlattGrid Praat writes is like that -/
+theorem no_points_row_rejected :
+    openNormal (fileText (t "0") (t "1.0") [⟨.tier ⟨t "phonation", t "0", t "1.0", []⟩, none⟩]) = .error .valueError :=
+  errIs_eq _ _ (by decide +kernel)
+
+#guard fileText (t "0") (t "1.0") [⟨.tier ⟨t "phonation", t "0", t "1.0", [(t "0.5", t "100.0")]⟩, none⟩, ⟨.tier ⟨t "gain", t "0", t "1.0", []⟩, none⟩]
+  = t "File type = \"ooTextFile\"\nObject class = \"KlattGrid\"\n\nxmin = 0\nxmax = 1.0\nphonation? <exists>\nxmin = 0\nxmax = 1.0\npoints [1]:\n    number = 0.5\n    value = 100.0\ngain? <exists>\nxmin = 0\nxmax = 1.0\npoints: size = 0\n"
+
+set_option exponentiation.threshold 2000 in
+set_option maxRecDepth 100000 in
+/-- a header-only tier (`phonation`) that carries a point is written without its `points: size` row, and
+`_buildEntries` then fails on the `points [1]:` row (replayed on /repo: `IndexError: list index out of range`);
+Praat's header-only tiers have no points, and `modifyValues` cannot add any -/
+theorem header_tier_with_points_rejected :
+    openNormal (fileText (t "0") (t "1.0")
+      [⟨.tier ⟨t "phonation", t "0", t "1.0", [(t "0.5", t "100.0")]⟩, none⟩,
+       ⟨.tier ⟨t "gain", t "0", t "1.0", []⟩, none⟩]) = .error .indexError :=
+  errIs_eq _ _ (by decide +kernel)
+
+set_option exponentiation.threshold 2000 in
+set_option maxRecDepth 100000 in
+/-- `KlattOk.names` is enforced by the code: two sections of one name are refused by `Klattgrid.addTier`
+(praatio's TierNameExistsError, replayed on /repo) — no object the reader returns has them -/
+theorem duplicate_section_rejected :
+    openNormal (fileText (t "0") (t "1.0")
+      [⟨.tier ⟨t "pitch", t "0", t "1.0", [(t "0.5", t "100.0")]⟩, none⟩,
+       ⟨.tier ⟨t "pitch", t "0", t "1.0", [(t "0.5", t "100.0")]⟩, none⟩]) = .error .tierNameExists :=
+  errIs_eq _ _ (by decide +kernel)
+
+set_option exponentiation.threshold 2000 in
+set_option maxRecDepth 100000 in
+/-- `ContainerOk.distinct` is enforced by the code: two sub tiers of one name are refused by
+`KlattIntermediateTier.addTier` (TierNameExistsError, replayed on /repo) -/
+theorem duplicate_subtier_rejected :
+    openNormal (fileText (t "0") (t "1.0")
+      [⟨.tier ⟨t "pitch", t "0", t "1.0", [(t "0.5", t "100.0")]⟩, none⟩,
+       ⟨.cont (t "nasal_formants")
+          [⟨t "formants", [⟨t "formants [1]", t "0", t "1.0", []⟩, ⟨t "formants [1]", t "0", t "1.0", []⟩]⟩,
+           ⟨t "bandwidths", [⟨t "bandwidths [1]", t "0", t "1.0", []⟩]⟩], some (t "0", t "1.0")⟩]) = .error .tierNameExists :=
+  errIs_eq _ _ (by decide +kernel)
 
 end C19
